@@ -28,6 +28,7 @@ def near_miss(G, role, sig, rng):
     up, down = tc.sig_instance(su, rng), tc.sig_instance(sd, rng)
     which = rng.choice(["up", "down"])
     s0 = su if which == "up" else sd
+    s0 = s0.upper()
     idx = [i for i, c in enumerate(s0) if c != "N"]
     if not idx:
         return None
@@ -53,11 +54,11 @@ def run(tier, seed):
     for spec, cls in kcs:
         G = gen.geometry_of(cls.cutter)
         role = classes.role_of(cls)
-        sig = cls.signature
+        csig = cls.signature
         sibs = [c for sp, c in kcs if sp["kit"] == spec["kit"] and c is not cls and classes.role_of(c) == role and c.cutter is cls.cutter]
         seqs = []
         for _ in range(2 if q else 8):
-            up, down = tc.sig_instance(sig[0], rng), tc.sig_instance(sig[1], rng)
+            up, down = tc.sig_instance(csig[0], rng), tc.sig_instance(csig[1], rng)
             seqs.append(G.module(up, gen.rnd(rng.randint(2, 9), rng), down, gen.rnd(rng.randint(0, 9), rng), rng) if role == "module"
                         else G.vector(down, up, gen.rnd(rng.randint(0, 7), rng), gen.rnd(rng.randint(2, 9), rng), rng))
         for sib in rng.sample(sibs, min(len(sibs), 2 if q else 6)):
@@ -65,7 +66,7 @@ def run(tier, seed):
             seqs.append(G.module(u2, gen.rnd(4, rng), d2, gen.rnd(5, rng), rng) if role == "module"
                         else G.vector(d2, u2, gen.rnd(3, rng), gen.rnd(5, rng), rng))
         for _ in range(2 if q else 6):
-            seqs.append(near_miss(G, role, sig, rng))
+            seqs.append(near_miss(G, role, csig, rng))
             ov = G.overhangs(2, rng)
             seqs.append(G.module(ov[0], gen.rnd(5, rng), ov[1], gen.rnd(4, rng), rng) if role == "module"
                         else G.vector(ov[0], ov[1], gen.rnd(3, rng), gen.rnd(4, rng), rng))
